@@ -174,12 +174,15 @@ async fn request(trace: &mut Trace, mat: &Material, env: &RoundEnv, real: &RealR
     let accepted = resp == "ok" || after != before;
     let my_vk = after.iter().find(|r| r.0 == party).map(|r| r.1.clone());
     let dup = accepted && my_vk.as_ref().is_some_and(|k| after.iter().any(|r| r.0 != party && r.1 == *k));
+    // the key of the request was held by ANOTHER party of the round before the request
+    let held_before = proj["vk"].as_str().is_some_and(|k| before.iter().any(|r| r.0 != party && r.1 == k));
     let alias = accepted && proj["kesSig"]["evo"].as_i64() == Some(LAST_EVO as i64) && announced == LAST_EVO + 2;
     let mut ev = json!({
         "ev":"RoundRegister","level":"round","reg":proj,"resp":resp,"err":err,"accepted":accepted,
         "store": after.iter().map(|r| json!([r.0, r.1, r.2])).collect::<Vec<_>>(),
         "returned_stake": res.as_ref().map(|s| s.stake.to_string()).unwrap_or("none".into()),
         "duplicate_key_across_round": dup,
+        "key_held_by_other_before": held_before,
         "kes_last_evolution_aliased": alias,
         "route":"json",
     });
